@@ -573,9 +573,12 @@ class Dataset(AbstractDataset, dict, OpMixin, GetSetDelAttrMixin):
 
         for old, new in iterkeys:
             val = super(Dataset, ds).__getitem__(old) # same as ds[old]
+            replaced = super(Dataset, ds).__getitem__(new) if old != new and new in ds.keys() else None
             super(Dataset, ds).__setitem__(new, val)
             if old != new:
                 super(Dataset, ds).__delitem__(old)
+            if replaced is not None:
+                ds._maybe_delete_axes(replaced.axes) # the overwritten variable may have been the last one with some dimension
 
         if not inplace:
             return ds
